@@ -51,6 +51,10 @@ def judge(ev, obs, gens_before):
             return (f'generation {ev["resolved"]} does not hold exactly the states of this run, each trained on top of the '
                     f'actor\'s own previous state (observed {json.dumps(obs["states"])[:300]})')
         return None
+    stale = [p for p in obs.get('params', []) if json.loads(p).get('rate', 'current') != 'current']
+    if stale:
+        return (f'{ev["op"]}: loaded actors were applied with the hyper-parameters {stale} stored in their state instead of '
+                "the current code's {'rate': 'current'}")
     want = ev['expect'][0]
     root = want['id']
     got = [v for v in obs['values'] if v['tag'] == 'app' and v['id'] == root]
